@@ -123,8 +123,9 @@ def run(ctx):
         all_spatial = all(t == "SPATIAL" for t in types)
         box = []
         for _ in range(n):
-            lo = rng.choice([0, -D // 2, rng.randint(0, 3 * D), 5 * D + D // 2])
-            box.append((lo, lo + rng.choice([D, 4 * D, rng.randint(1, 5 * D), 3 * D + D // 2])))
+            # half-integer limits with even and odd integer part (round-half-even vs half-up differ on the even ones)
+            lo = rng.choice([0, -D // 2, rng.randint(0, 3 * D), 5 * D + D // 2, D // 2, 2 * D + D // 2, -D - D // 2])
+            box.append((lo, lo + rng.choice([D, 4 * D, rng.randint(1, 5 * D), 3 * D + D // 2, 2 * D, 2 * D + D // 2, 5 * D])))
         bb = tuple((lo / D, hi / D) for lo, hi in box)
         own = rng.random() < 0.5
         center = rng.random() < 0.5
@@ -142,6 +143,14 @@ def run(ctx):
         if pts.shape[-1] != n:
             pts = pts.T
         got = [[int(round(v * D)) for v in row] for row in pts]
+        # the statement read directly: the corners are the product of the per-axis limits, moved to pixel centres (half up, like every
+        # other pixel rounding in gwcs) when centring is requested
+        lim = [((math.floor(a + 0.5), math.floor(b + 0.5)) if center else (a, b)) for a, b in bb]
+        want_set = sorted(set(itertools.product(*[(float(a), float(b)) for a, b in lim])))
+        got_set = sorted(set(tuple(float(v) / D for v in row) for row in got))
+        if got_set != want_set:
+            problems.append((f"footprint(center={center}) of the identity WCS with box {bb} uses corners {got_set}, the box corners"
+                             f"{' moved to pixel centres' if center else ''} are {want_set}", {"n": n, "types": types, "box": bb, "center": center}, None))
         terms_f.append(f"({gbool(all_spatial and n == 2)}, {gbool(center)}, " + glist([f"({gz(a)}, {gz(b)})" for a, b in box]) + ", " +
                        glist([gzl(r) for r in got]) + ")")
         meta_f.append((n, types, bb, center, [[v / D for v in r] for r in got]))
